@@ -107,7 +107,7 @@ def read_sections(path: str, want: List[str]) -> Tuple[str, List[str]]:
         if sec in want or sec.endswith('-begin') or sec.endswith('-end'):
             t = ''.join(chunks[sec])
             text.append(t)
-            for m in re.finditer(r'(?:broadcast axiom fn|axiom fn)\s+(\w+)|assume_specification(?:<[^\[]*>)?\s*\[\s*([^\]]+?)\s*\]|external_type_specification\]\s*(?:#\[[^\]]*\]\s*)*pub struct \w+(?:<[^>]*>)?\(([^)]+)\)|external_trait_specification[^\n]*\]\s*(?:#\[[^\]]*\]\s*)*pub trait (\w+)|uninterp spec fn (\w+)|#\[verifier::external_body\]\s*pub (?:fn|struct) (\w+)', t):
+            for m in re.finditer(r'(?:broadcast axiom fn|axiom fn)\s+(\w+)|assume_specification(?:<[^\[]*>)?\s*\[\s*(.+?)\s*\]\s*\(|external_type_specification\]\s*(?:#\[[^\]]*\]\s*)*pub struct \w+(?:<[^>]*>)?\(([^)]+)\)|external_trait_specification[^\n]*\]\s*(?:#\[[^\]]*\]\s*)*pub trait (\w+)|uninterp spec fn (\w+)|#\[verifier::external_body\]\s*pub (?:fn|struct) (\w+)', t):
                 if m.group(1):
                     names.append(f'axiom {m.group(1)} ({os.path.basename(path)})')
                 elif m.group(2):
@@ -204,6 +204,7 @@ def run_unit(unit: Unit, repo: str = REPO, probe: bool = True, tag: str = '') ->
         return ur
     text = out.finish()
     ur.out = out
+    ur.trusted = unit.trusted_base()
     path = os.path.join(scratch(), f'{unit.name}{tag}.rs')
     with open(path, 'w', encoding='utf-8') as f:
         f.write(text)
